@@ -12,6 +12,7 @@ import Mqtt.Driver.Client
 import Mqtt.Driver.Conc
 import Mqtt.Driver.Ring
 import Mqtt.Driver.Codec
+import Mqtt.Driver.Life
 
 namespace Mqtt.Driver
 
@@ -44,6 +45,7 @@ def dispatch (st : DState) (line : String) : DState × String × String :=
   | "conc" :: rest => let o := Conc.handle rest; (st, o, o)
   | "ring" :: rest => let (r, m, s) := Ring.handle st.ring rest; ({ st with ring := r }, m, s)
   | "codec" :: rest => let (a, m, s) := Codec.handle st.codec rest; ({ st with codec := a }, m, s)
+  | "life" :: rest => let (m, s) := Life.handle rest; (st, m, s)
   | [] => (st, "", "")
   | _ => (st, "bad-core", "bad-core")
 
